@@ -409,6 +409,19 @@ def _replay(mod, path):
     if params is None:
         print("replay: case id %s not enumerated by %s" % (rec["case_id"], prop))
         return 2
+    if hasattr(mod, "replay_one"):
+        # plain re-execution of exactly the recorded schedule / history, without the explorer
+        obs = [mod.replay_one(params, rec["failure"]) for _ in range(2)]
+        if obs[0] != obs[1]:
+            print("HARNESS-ERROR replay not deterministic: %s vs %s" % (obs[0], obs[1]))
+            return 2
+        still, what = obs[0]
+        print("replay %s: case=%s clause=%s sub=%s -> %s\n  %s" % (
+            prop, rec["case_id"], rec["failure"]["clause"], rec["failure"]["sub"], "FAILS" if still else "passes", what))
+        if still:
+            print("VIOLATION property=%s replay=%s" % (prop, path))
+            return 1
+        return 0
     runs = []
     for _ in range(2):
         _, out, _ = _eval_one((rec["case_id"], params))
